@@ -105,3 +105,37 @@ def native_table_whole(rows, table='element'):
         if bad:
             return False, 'first set %r, later set %r (row format %r): ' % (rows[:2], later, tab.row_format) + '; '.join(bad[:3])
     return True, 'cells are the printed numbers (row format %r)' % (tab.row_format,)
+
+
+def native_table_whole_autough2(rows):
+    """the real setup_table_AUTOUGH2 on the first two rows, read_table_AUTOUGH2 / skip_table_AUTOUGH2 on the later two"""
+    import io
+    from t2listing import t2listing
+    from mulgrids import fix_blockname
+    cols, f0, w = ['Pressure', 'Temperature', 'Gas saturati'], 13, 13
+    def table_lines(rs):
+        return [' ' + 'E' * 100, ' ' * 59 + 'ELEMENT TABLE', '', ' ELEMEN INDEX   Pressure    Temperature Gas saturati', ''] + list(rs) + [' ' + 'E' * 100, ' the title']
+    first = '\n'.join(table_lines(rows[:2])) + '\n'
+    text = first + '\n'.join(table_lines(rows[2:])) + '\n'
+    me = t2listing.__new__(t2listing)
+    me._file = io.BytesIO(text.encode()); me.encoding = 'utf-8'; me.title = 'the title'; me._table = {}; me._tablenames = []; me.simulator = 'AUTOUGH2'
+    try:
+        me.setup_table_AUTOUGH2('element')
+        after_setup = me._file.tell()
+        me._file.seek(len(first.encode())); me.read_table_AUTOUGH2('element'); after_read = me._file.tell()
+        me._file.seek(len(first.encode())); me.skip_table_AUTOUGH2('element'); after_skip = me._file.tell()
+    except Exception as ex:
+        return False, 'rows %r: raises %s: %s' % (rows, type(ex).__name__, ex)
+    tab = me._table['element']
+    bad = []
+    if after_setup != len(first.encode()) or after_read != len(text.encode()): bad.append('cursor after set-up %d (table ends at %d), after reading %d (%d)' % (after_setup, len(first.encode()), after_read, len(text.encode())))
+    if after_skip != after_read: bad.append('skipping the table leaves the cursor at byte %d, reading it at %d' % (after_skip, after_read))
+    names = [fix_blockname(r[2:7]) for r in rows[2:]]
+    if list(tab.row_name) != names or list(tab.column_name) != cols: bad.append('rows %r columns %r, printed %r %r' % (list(tab.row_name), list(tab.column_name), names, cols))
+    else:
+        for r, nm in zip(rows[2:], names):
+            for i, c in enumerate(cols):
+                f = r[f0 + w * i: f0 + w * (i + 1)].strip()
+                f = f if f[0] == '-' else ' ' + f
+                if not (tab[nm][c] == _printed(f)): bad.append('row %r column %s: printed %r read as %r' % (nm, c, f, tab[nm][c]))
+    return (not bad), '; '.join(bad[:3]) or 'cells are the printed numbers'
